@@ -184,6 +184,38 @@ int main(int argc, char **argv) {
         }
     }
 
+    // ---- files of format versions that had no id header: the id attribute was introduced with format 1.2.0 (FileHDF5::checkHeader asks
+    //      for it from that version on), files written by older libraries carry none.  For every stored triple BELOW 1.2.0 of the cube
+    //      the gate must answer as for the file with an id.  (What a missing id means from 1.2.0 on is C09's matter.)
+    for (const V3 &v : cube) {
+        static const V3 ID_SINCE = {1, 2, 0};
+        if (!std::lexicographical_compare(v.begin(), v.end(), ID_SINCE.begin(), ID_SINCE.end())) continue;
+        long ci = idx++;
+        if (!vf::take_case(ci)) continue;
+        vf::case_desc("stored version " + vs(v) + " (older than the id header) without an id attribute");
+        for (FileMode m : modes) for (int force = 0; force < 2; force++) {
+            std::string p = vf::scratch_file("wn.h5");
+            copy_file(base, p);
+            bool planted = set_version_attr(p, v);
+            if (planted) { hid_t h = H5Fopen(p.c_str(), H5F_ACC_RDWR, H5P_DEFAULT); planted = h >= 0 && H5Adelete_by_name(h, "/", "id", H5P_DEFAULT) >= 0; if (h >= 0) H5Fclose(h); }
+            if (!planted) { vf::violation("C10|harness|cannot plant a file without id", vs(v)); break; }
+            bool expect = force || m == FileMode::Overwrite || (m == FileMode::ReadOnly && v[0] == L[0] && v[1] <= L[1]) || (m == FileMode::ReadWrite && v == L);
+            bool opened = false; V3 seen; size_t nblocks = 99; std::string what;
+            std::string exc = vf::guarded([&] {
+                File f = File::open(p, m, "hdf5", Compression::Auto, force ? OpenFlags::Force : OpenFlags::None);
+                opened = true; seen = f.version(); nblocks = f.blockCount(); f.close();
+            }, &what);
+            vf::count("opens_noid");
+            vf::distinct("outcomes", std::string("noid|") + mode_name(m) + (force ? "F" : "-") + (opened ? "open" : exc));
+            std::string ctx = std::string(mode_name(m)) + (force ? "+Force" : "") + " stored=" + vs(v) + " without id, lib=" + vs(L);
+            if (opened != expect)
+                vf::violation(std::string("C10|File::open|") + mode_name(m) + (force ? "+Force" : "") + "|file of a format version older than the id header, without id|" + (expect ? "refused but must open" : "opened but must be refused"),
+                              ctx + ": " + (opened ? "opened" : "refused (" + exc + ": " + what + ")"));
+            else if (opened && m != FileMode::Overwrite && (seen != v || nblocks != 1))
+                vf::violation(std::string("C10|File::version|") + mode_name(m) + "|file without id|differs from stored triple or content lost", ctx + " version()=" + vs(seen) + " blocks=" + std::to_string(nblocks));
+        }
+    }
+
     // ---- the same gate while another handle of the same process holds the file open ----
     // The first handle is opened with Force (so it always opens) ReadOnly or ReadWrite; the second open is the one under test.
     // Combinations HDF5 itself forbids (ReadWrite or Overwrite while the file is open ReadOnly, Overwrite while it is open) are
